@@ -321,7 +321,7 @@ def rand_table(rng, cr=False, empty_rows=False, no_rows=False):
 
 
 def rand_workbook(rng, cls):
-    """cls: 'domain' (the theorem's domain), 'cr' (cells with CR: correspondence only),
+    """cls: 'domain' (the theorem's domain), 'cr' (cells with CR: correspondence + mutual agreement),
     'empty_row', 'no_rows'"""
     k = rng.choice([1, 1, 2, 3, 4])
     names = rng.sample(NAME_POOL, k)
@@ -509,6 +509,12 @@ def _run(ctx, v, rng, m, thorough, scratch):
             v.coverage["evaluations"] += 1
             if mo != im:
                 ctx.disagree("csv field size limit", f"{n} chars quoted={quoted}", repr(mo), repr(im))
+    # witness of theorem csv_roundtrip_unguarded_refuted, replayed on the real module
+    v.coverage["evaluations"] += 1
+    back = py_csv_read(py_csv_write([["a" * (lim + 1)]]), "")
+    if back != ("err", 1):
+        ctx.disagree("csv field limit witness (theorem csv_roundtrip_unguarded_refuted on the real library)",
+                     f"[['a'*{lim + 1}]]", "Err EFieldLimit", repr(back)[:200])
     stats["csv_field_limit"] = lim
 
     # ============================================================ (a3) load_csv on real files + tablib import/export
@@ -601,6 +607,16 @@ def _run(ctx, v, rng, m, thorough, scratch):
         im = ("ok", r[1]) if r[0] == "ok" else ("err",)
         san_dist["ok" if r[0] == "ok" else "err"] += 1
         if r[0] == "ok":
+            # theorem sanitize_idempotent on the real function
+            def impl_again():
+                ds = tablib.Dataset()
+                ds.headers = list(r[1][0])
+                for row in r[1][1]:
+                    ds.append(list(row))
+                return table_view(xr._sanitize(ds))
+            r2 = run_cli_mode(impl_again)
+            if r2[0] != "ok" or r2[1] != r[1]:
+                ctx.disagree("_sanitize idempotence (theorem sanitize_idempotent on the real function)", repr(g), repr(r[1]), repr(r2)[:300])
             if len(r[1][1]) < len(g) - 1:
                 san_dist["dropped_row_cases"] += 1
                 nontrivial.add("san" + repr(g))
@@ -664,6 +680,16 @@ def _run(ctx, v, rng, m, thorough, scratch):
 
         r = run_cli_mode(impl_set)
         js_dist["setter_ok" if r[0] == "ok" else "setter_err"] += 1
+        if h and rows and len(set(h)) == len(h):
+            # theorem json_table_roundtrip on the real tablib
+            def impl_rt():
+                t = tablib.Dataset()
+                t.dict = got
+                return table_view(t)
+            rr = run_cli_mode(impl_rt)
+            js_dist["roundtrip_in_domain"] = js_dist.get("roundtrip_in_domain", 0) + 1
+            if rr[0] != "ok" or rr[1] != (list(h), [list(x) for x in rows]):
+                ctx.disagree("Dataset.dict round trip (theorem json_table_roundtrip on the real tablib)", repr((h, rows)), "Ok t", repr(rr)[:300])
         if m:
             mo = dec_jsheet(outs_g[i])
             if mo != im:
@@ -673,6 +699,15 @@ def _run(ctx, v, rng, m, thorough, scratch):
             ims = ("ok", r[1]) if r[0] == "ok" else ("err",)
             if ms != ims:
                 ctx.disagree("Dataset.dict setter (JSONSheetReader)", repr(content), repr(ms), repr(r))
+    # witness of theorem json_table_roundtrip_duplicate_header_refuted, replayed on the real tablib
+    v.coverage["evaluations"] += 1
+    dsw = tablib.Dataset(headers=["a", "a"])
+    dsw.append(["x", "y"])
+    tw = tablib.Dataset()
+    tw.dict = dsw.dict
+    if table_view(tw) != (["a"], [["y"]]):
+        ctx.disagree("duplicate-header witness (theorem json_table_roundtrip_duplicate_header_refuted on the real tablib)",
+                     "headers ['a','a'], row ['x','y']", "(['a'], [['y']])", repr(table_view(tw)))
     stats["dict_cases"] = js_dist
 
     # ============================================================ (b1) the three real readers on the same workbook
@@ -743,8 +778,12 @@ def _run(ctx, v, rng, m, thorough, scratch):
                         if mf != ("ok", res["json"][1][name]):
                             ctx.disagree("JSONSheetReader sheet", repr((name, h, rows)), repr(mf), repr(res["json"][1][name]))
         # ---- the property's oracle on the implementation
-        if cls != "cr":
+        # (class 'cr': the CSV and XLSX readers newline-normalise a CR, so "cells intact" is not asked;
+        #  the three formats must still agree with each other and all succeed: theorem formats_agree_normalised)
+        if True:
             ok = formats_oracle(res)
+            if cls == "cr" and res["csv"][0] != "ok":
+                ok = False
             # expected content: exactly the abstract workbook (cells intact)
             if ok and res["csv"][0] == "ok":
                 want = {n: (h, rows) for n, (h, rows) in wb.items()}
@@ -824,7 +863,7 @@ def _run(ctx, v, rng, m, thorough, scratch):
         "(70%% written tables incl. all-empty rows / header-only, 30%% mutated text: ragged, blank lines, stray quotes); "
         "_sanitize on grids with None cells / trailing None headers / short and long rows; Dataset.dict getter+setter incl. "
         "duplicate headers and re-ordered dicts; then whole workbooks through the three real readers (70%% in the theorem's "
-        "domain, 10%% CR cells [correspondence only], 10%% all-empty rows, 10%% header-only sheets) and small valid rpft "
+        "domain, 10%% CR cells [correspondence + mutual agreement of the formats], 10%% all-empty rows, 10%% header-only sheets) and small valid rpft "
         "workbooks through create_flows in all formats (80%% valid, 20%% carrying one of the two defect features). "
         "non-trivial = distinct text with a quote or CR / rows with a cell needing quotes / grid where a row was dropped / "
         "workbook read / workbook compiled") % (maxlen, "".join(alpha), small)
